@@ -165,7 +165,7 @@ def fuse_zip_range_loop(st, gen, prefix, self_expr=None):
         cnt = 0; lim = N; <gen's PRE>; <gen's loop>: if cnt >= lim: break; A; T = E; I = cnt; cnt += 1; BODY; B
 
     (sound under fuse_loop's conditions when, in addition, the producer loop's own test / B have no effect a consumer can see:
-    B must be empty and a `while` test must not contain a call)."""
+    B may only re-bind the generator's own variables by expressions that cannot raise, and a `while` test must not contain a call)."""
     zr = zip_range_parts(st.iter)
     if zr is None or st.orelse or not isinstance(st.target, (ast.Tuple, ast.List)) or len(st.target.elts) != 2:
         return None
@@ -182,8 +182,14 @@ def fuse_zip_range_loop(st, gen, prefix, self_expr=None):
     body = [b for b in gen.body if not (isinstance(b, ast.Expr) and isinstance(b.value, ast.Constant))]
     gloop = body[-1]
     yi = [i for i, b in enumerate(gloop.body) if isinstance(b, ast.Expr) and isinstance(b.value, ast.Yield)][0]
-    if gloop.body[yi + 1:]:
-        return None
+    for b in gloop.body[yi + 1:]:
+        # what follows the yield runs when the consumer asks again; fused, it also runs once after the LAST element taken. That
+        # is invisible only for plain re-bindings of the generator's own variables by expressions that cannot raise
+        if not (isinstance(b, (ast.Assign, ast.AugAssign)) and all(isinstance(t, ast.Name) for t in (b.targets if isinstance(b, ast.Assign) else [b.target])) and
+                not _has([b.value], (ast.Call, ast.Await, ast.Yield, ast.YieldFrom)) and
+                not any(isinstance(n, ast.Subscript) and not isinstance(n.slice, ast.Slice) for n in ast.walk(b.value)) and
+                not any(isinstance(n, ast.BinOp) and isinstance(n.op, (ast.Div, ast.FloorDiv, ast.Mod, ast.Pow)) for n in ast.walk(b.value))):
+            return None
     if isinstance(gloop, ast.While) and _has([gloop.test], (ast.Call,)):
         return None
     loop.body.insert(0, ast.If(test=ast.Compare(left=ast.Name(id=cnt, ctx=ast.Load()), ops=[ast.GtE()], comparators=[ast.Name(id=lim, ctx=ast.Load())]), body=[ast.Break()], orelse=[]))
